@@ -55,7 +55,7 @@ theorem UInv.done {c : BCtx} (hc : c.Ok) {st : NumSt} {a t : Bits} {pos : Nat}
   exact ⟨h2, by omega⟩
 
 
-theorem nextBatch_spec (L : Matcher) (hL : LazyOf L) (c : BCtx) (hc : c.Ok) (v : VCtx) (hv : v.Ok c)
+theorem nextBatch_spec (L : Matcher) (hL : WeakLazyOf L) (c : BCtx) (hc : c.Ok) (v : VCtx) (hv : v.Ok c)
     (b : Body) (limit : Nat) (hlim : 1 ≤ limit) (a t : Bits) (pos q j : Nat)
     (hinv : BodyInv c v b a t pos q j) (hal : (pos + a.length) % 8 = 0) :
     ∃ k nums b' rd',
